@@ -17,6 +17,8 @@ L1_1, L1_0, L2_POOL = 0x40000, 0x44000, 0x48000
 CFGS = {
     'v7-vmsa': gen.CONFIGS['v7-vmsa'], 'v6-vmsa': gen.CONFIGS['v6-vmsa'], 'v7-lpae': gen.CONFIGS['v7-lpae'],
     'v7-vmsa-nosec': {'arch_version': 7, 'memory_system_architecture': 'VMSA', 'have_security_ext': False},
+    # Secure accesses on a core that also has the Virtualization Extensions: Monitor mode with SCR.NS = 1 is still Secure - one stage, whatever HCR.VM says
+    'v7-virt-secure': gen.CONFIGS['v7-virt'],
 }
 KINDS = ['invalid1', 'section', 'supersection', 'table-invalid2', 'table-large', 'table-small', 'garbage']
 
@@ -146,6 +148,14 @@ def translate_cell(acc, rng, cfgname, hooked):
     if any((va >> 25) == 0 for va in vas) and rng.random() < 0.7:
         st_['fcseidr'] = 0
     st_['cpsr'] = gen.cpsr_value(m=gen.MODES['svc'])
+    if cfgname == 'v7-virt-secure':
+        if rng.random() < 0.6:
+            st_['cpsr'] = gen.cpsr_value(m=gen.MODES['mon'])
+            st_['scr'] = rng.getrandbits(1)               # Monitor mode is Secure whatever SCR.NS says
+        gen.force_stage2(rng, st_)                        # HCR.VM = 1 with a stage-2 table that maps nothing ...
+        if (st_['cpsr'] & 31) != gen.MODES['mon']:
+            st_['scr'] = 0                                # ... and must not be consulted: the access is Secure
+        st_['hcr'] &= ~((1 << 27) | (1 << 12))
     st_['mem1'] = tb.image(rng, big, rng.random() < 0.5)
     target.apply_state(cpu, st_)
     pre = target.snapshot(cpu)
@@ -224,7 +234,7 @@ def shard_translate(seed, count):
     acc = Acc()
     rng = random.Random(seed)
     for _ in range(count):
-        cfgname = rng.choice(('v7-vmsa', 'v7-vmsa', 'v6-vmsa', 'v7-vmsa-nosec', 'v7-lpae'))
+        cfgname = rng.choice(('v7-vmsa', 'v7-vmsa', 'v6-vmsa', 'v7-vmsa-nosec', 'v7-lpae', 'v7-virt-secure'))
         translate_cell(acc, rng, cfgname, rng.random() < 0.6)
     return acc
 
